@@ -117,6 +117,24 @@ def configs(m):
             ("fenced", ["footnotes", "table", "task_lists", FencedDirective([Admonition(), Image(), Figure()])], True)]
 
 
+_toc_md = {}
+
+
+def check_toc(m, style, doc, fails):
+    """well-formedness only (the toc directive is HTML-only, so two-step rendering is not compared)"""
+    if style not in _toc_md:
+        from mistune.directives import FencedDirective, RSTDirective, TableOfContents
+        _toc_md[style] = m.create_markdown(escape=True, plugins=["footnotes", (FencedDirective if style == "fenced" else RSTDirective)([TableOfContents()])])
+    try:
+        out = _toc_md[style](doc)
+    except Exception:  # C01's business
+        return False
+    e = well_formed(out)
+    if e:
+        fails.append({"input": doc, "config": "toc-" + style, "escape": True, "hard_wrap": False, "kind": "not-well-formed", "detail": e, "html": out[:1500]})
+    return True
+
+
 def check_html(m, name, plugins, doc, escape, hard_wrap, fails):
     md = m.create_markdown(escape=escape, hard_wrap=hard_wrap, plugins=plugins)
     ast_md = m.create_markdown(renderer=None, hard_wrap=hard_wrap, plugins=plugins)
@@ -260,6 +278,12 @@ def oracle(ctx, extra):
         if check_html(m, name, plugins, doc, r.random() < 0.75, r.random() < 0.25, fails):
             n += 1
             seen.add(doc)
+        if i % 9 == 5:
+            # tables of contents (directive, either style) for any sequence of heading levels: the nesting of the generated list
+            style = r.choice(["fenced", "rst"])
+            d3 = gen_docs.toc_doc(r, style)
+            if check_toc(m, style, d3, fails):
+                n += 1
         if i % 4 == 0:
             d2 = gen_docs.doc(r, plugins=(), directives=False)
             if r.random() < 0.1:
@@ -277,7 +301,7 @@ def oracle(ctx, extra):
                     "plugins / all+speedup / footnotes+table+task_lists+fenced directives, escape on 75%, hard_wrap 25%; HTML "
                     "checked for strict nesting (escape on), every leaf of the renderer-less token list searched escaped and in "
                     "order, rendering that token list compared with direct conversion; every 4th iteration a core document "
-                    "through the Markdown or RST renderer with per-line leaf search; distinct by text",
+                    "through the Markdown or RST renderer with per-line leaf search; every 9th a table-of-contents directive (fenced or RST style) over a random sequence of 1-7 heading levels, strict nesting only; distinct by text",
             "samples": [json.dumps(gen_docs.doc(ctx.rng('s'), plugins=gen_docs.ALL_PLUGINS))[:300]]}
 
 
@@ -300,6 +324,8 @@ def replay(ctx, case):
     fails = []
     if c.get("config") in ("markdown", "rst"):
         check_text_renderer(m, c["config"], c["input"], fails)
+    elif (c.get("config") or "").startswith("toc-"):
+        check_toc(m, c["config"][4:], c["input"], fails)
     else:
         for name, plugins, _d in configs(m):
             if name == c.get("config"):
